@@ -1,3 +1,171 @@
+import Invoke.Model.Config
 import Driver.Util
-/-! stub: replaced by the owner of this driver -/
-def main : IO Unit := Drv.mainLoop (fun _ => "bad-op")
+/-! Line-protocol driver for the `Config` model (C06, C11, C19).
+
+One input line = one HISTORY over a growing list of configuration objects:
+  `<obj>:<OP> <args…>` joined by `;`.  Output: per operation `<result>#<view of obj 0>#<view of obj 1>…`
+joined by `|`.
+
+Values: `n` | `b0` `b1` | `i-12` | `sabc` | `l+x+y` (list of strings) | `{k:v,k:v}`; `-` = absent argument.
+Paths: `-` (root) or steps joined by `.`, a step prefixed with `@` uses attribute syntax. -/
+open Inv Drv
+
+partial def parseVal (cs : List Char) : Option (Val × List Char) :=
+  match cs with
+  | 'n' :: r => some (.leaf .none, r)
+  | 'b' :: '0' :: r => some (.leaf (.b false), r)
+  | 'b' :: '1' :: r => some (.leaf (.b true), r)
+  | 'i' :: r =>
+    let tok := r.takeWhile (fun c => c.isDigit || c == '-')
+    some (.leaf (.i (String.ofList tok).toInt!), r.drop tok.length)
+  | 's' :: r =>
+    let tok := r.takeWhile (fun c => c.isAlphanum)
+    some (.leaf (.s tok), r.drop tok.length)
+  | 'l' :: r => goL r []
+  | '{' :: '}' :: r => some (.dict [], r)
+  | '{' :: r => go r []
+  | _ => none
+where
+  goL (cs : List Char) (acc : List (List Char)) : Option (Val × List Char) :=
+    match cs with
+    | '+' :: r =>
+      let tok := r.takeWhile (fun c => c.isAlphanum)
+      goL (r.drop tok.length) (acc ++ [tok])
+    | _ => some (.leaf (.l acc), cs)
+  go (cs : List Char) (acc : KVs) : Option (Val × List Char) :=
+    let k := cs.takeWhile (· != ':')
+    match parseVal (cs.drop (k.length + 1)) with
+    | none => none
+    | some (v, rest) =>
+      match rest with
+      | ',' :: r => go r (acc ++ [(k, v)])
+      | '}' :: r => some (.dict (acc ++ [(k, v)]), r)
+      | _ => none
+
+def keyLt (a b : Key) : Bool := String.ofList a < String.ofList b
+
+partial def showVal : Val → String
+  | .leaf .none => "n"
+  | .leaf (.b v) => if v then "b1" else "b0"
+  | .leaf (.i v) => s!"i{v}"
+  | .leaf (.s v) => "s" ++ String.ofList v
+  | .leaf (.l xs) => "l" ++ String.join (xs.map fun x => "+" ++ String.ofList x)
+  | .leaf (.obj t) => s!"o{t}"
+  | .dict kvs =>
+    let kvs := kvs.toArray.qsort (fun a b => keyLt a.1 b.1) |>.toList
+    "{" ++ ",".intercalate (kvs.map fun (k, v) => String.ofList k ++ ":" ++ showVal v) ++ "}"
+
+def pv (s : String) : Val := match parseVal s.toList with | some (v, _) => v | none => .leaf .none
+def pd (s : String) : KVs := match pv s with | .dict d => d | _ => []
+def pvOpt (s : String) : Option Val := if s == "-" then none else some (pv s)
+def pdOpt (s : String) : Option KVs := if s == "-" then none else some (pd s)
+
+def stepOf (s : String) : Step :=
+  if s.startsWith "@" then ((s.drop 1).toString.toList, true) else (s.toList, false)
+def pathOf (s : String) : List Step := if s == "-" then [] else (s.splitOn ".").map stepOf
+
+def showErr : CErr → String
+  | .key _ => "E:key" | .typ _ => "E:typ" | .value _ => "E:value" | .attr _ => "E:attr"
+  | .ambiguousMerge => "E:ambiguousMerge" | .ambiguousEnv => "E:ambiguousEnv" | .uncastable => "E:uncastable"
+
+def showKeys (ks : List Key) : String :=
+  ",".intercalate ((ks.toArray.qsort keyLt).toList.map String.ofList)
+
+def showOut : Out → String
+  | .none => "-"
+  | .val v => "v" ++ showVal v
+  | .bool b => if b then "B1" else "B0"
+  | .nat n => s!"N{n}"
+  | .keys ks => "K" ++ showKeys ks
+  | .pair k v => "P" ++ String.ofList k ++ "=" ++ showVal v
+
+def showView (c : Cfg) : String :=
+  match c.view with | .ok v => showVal (.dict v) | .error e => "!" ++ showErr e
+
+/-- `VAR=value,VAR=value` (prefix already stripped) -/
+def parseEnv (s : String) : List (List Char × List Char) :=
+  if s == "-" then [] else
+  (s.splitOn ",").map fun kv =>
+    match kv.splitOn "=" with
+    | [k, v] => (k.toList, v.toList)
+    | [k] => (k.toList, [])
+    | _ => ([], [])
+
+def parseOp (ws : List String) : Option (List Step × Op) :=
+  match ws with
+  | ["GI", p, k] => some (pathOf p, .getItem k.toList)
+  | ["GA", p, k] => some (pathOf p, .getAttr k.toList)
+  | ["GET", p, k] => some (pathOf p, .get k.toList)
+  | ["SI", p, k, v] => some (pathOf p, .setItem k.toList (pv v))
+  | ["SA", p, k, v] => some (pathOf p, .setAttr k.toList (pv v))
+  | ["DI", p, k] => some (pathOf p, .delItem k.toList)
+  | ["DA", p, k] => some (pathOf p, .delAttr k.toList)
+  | ["POP", p, k, d] => some (pathOf p, .pop k.toList (pvOpt d))
+  | ["PI", p, k] => some (pathOf p, .popitem (if k == "-" then none else some k.toList))
+  | ["CLR", p] => some (pathOf p, .clear)
+  | ["SD", p, k, d] => some (pathOf p, .setdefault k.toList (pvOpt d))
+  | ["UPD", p, m, kw] => some (pathOf p, .update (pdOpt m) (pd kw))
+  | ["HAS", p, k] => some (pathOf p, .contains k.toList)
+  | ["LEN", p] => some (pathOf p, .len)
+  | ["KEYS", p] => some (pathOf p, .keys)
+  | ["ITEMS", p] => some (pathOf p, .items)
+  | _ => none
+
+def slotOf (s : String) : Option Slot := Slot.all.find? (fun x => x.name == s)
+
+def setAt (objs : List Cfg) (i : Nat) (c : Cfg) : List Cfg := objs.set i c
+
+/-- returns (objects', result text) -/
+def runOp (objs : List Cfg) (i : Nat) (ws : List String) : List Cfg × String :=
+  let cur : Cfg := objs.getD i {}
+  let fin (r : Except CErr Cfg) (okText : String) : List Cfg × String :=
+    match r with
+    | .ok c' => (setAt objs i c', okText)
+    | .error e => (objs, showErr e)
+  match ws with
+  | ["NEW", d, o] =>
+    let c : Cfg := { defaults := pd d, overrides := pd o }
+    (match c.view with
+     | .ok _ => (objs ++ [c], "-")
+     | .error e => (objs ++ [c], showErr e))
+  | ["NEWF", d, o, sy, us, pr, rt] =>
+    let c : Cfg := { defaults := pd d, overrides := pd o, system := pd sy, user := pd us, project := pd pr, runtime := pd rt }
+    (match c.view with
+     | .ok _ => (objs ++ [c], "-")
+     | .error e => (objs ++ [c], showErr e))
+  | ["LOAD", s, d] =>
+    (match slotOf s with
+     | some sl => fin (cur.load sl (pd d)) "-"
+     | none => (objs, "bad-slot"))
+  | ["ENV", e] => fin (cur.loadShellEnv (parseEnv e)) "-"
+  | ["TASK", noneFlag, cfgs, e] =>
+    let cs := if cfgs == "-" then [] else (cfgs.splitOn "/").map pd
+    fin (cur.taskStep (noneFlag == "1") cs (parseEnv e)) "-"
+  | ["CLONE", into] =>
+    (match cur.clone (match pdOpt into with | some d => d | none => []) with
+     | .ok c' => (objs ++ [c'], "-")
+     | .error e => (objs, showErr e))
+  | _ =>
+    match parseOp ws with
+    | none => (objs, "bad-op")
+    | some (path, op) =>
+      match cur.apply path op with
+      | .ok (c', o) => (setAt objs i c', showOut o)
+      | .error e => (objs, showErr e)
+
+def runHistory (ops : List String) : String :=
+  let rec go (objs : List Cfg) (ops : List String) (acc : List String) : List String :=
+    match ops with
+    | [] => acc.reverse
+    | o :: rest =>
+      let (idx, body) := match o.splitOn ":" with
+        | i :: r => (i.toNat?.getD 0, ":".intercalate r)
+        | [] => (0, "")
+      let (objs', res) := runOp objs idx (body.splitOn " ")
+      let line := "#".intercalate (res :: objs'.map showView)
+      go objs' rest (line :: acc)
+  "|".intercalate (go [] ops [])
+
+def step (line : String) : String := runHistory (line.splitOn ";")
+
+def main : IO Unit := mainLoop step
